@@ -1042,7 +1042,9 @@ func main() {
 	}
 	r := gen.FromEnv(6)
 	for k := 0; k < n; k++ {
-		switch x := r.Intn(29); {
+		switch x := r.Intn(30); {
+		case x == 29:
+			casePromWrite(r, idx)
 		case x >= 27:
 			caseWriter(r, idx)
 		case x == 26:
